@@ -334,3 +334,146 @@ theorem drain_eq_values {P : Type} (q : PendingTx P) (m : SMap (Nat × Nat) P) (
   rw [h1, heq]; rfl
 
 end EchoVerif.Sched
+
+namespace EchoVerif.Tick
+open EchoVerif EchoVerif.Sched EchoVerif.Generated SMap Exec
+
+/-- the radix scheduler's dedupe key -/
+def rkeyOf (cp : TCand × Program) : Nat × Nat := (cp.1.shash, cp.1.rule)
+
+/-- shifting the rule component by `ruleBase` (compact rule ↦ rule id) preserves the key order -/
+def shiftKey (k : Nat × Nat) : Nat × Nat := (k.1, ruleBase + k.2)
+
+theorem shift_lt (a b : Nat × Nat) : LinOrd.lt (shiftKey a) (shiftKey b) = LinOrd.lt a b := by
+  show (decide (a.1 < b.1) || (decide (a.1 = b.1) && decide (ruleBase + a.2 < ruleBase + b.2)))
+     = (decide (a.1 < b.1) || (decide (a.1 = b.1) && decide (a.2 < b.2)))
+  have : (ruleBase + a.2 < ruleBase + b.2) ↔ (a.2 < b.2) := by omega
+  simp only [this]
+
+theorem shift_inj (a b : Nat × Nat) : shiftKey a = shiftKey b ↔ a = b := by
+  obtain ⟨a1, a2⟩ := a; obtain ⟨b1, b2⟩ := b
+  simp only [shiftKey, Prod.mk.injEq]
+  constructor
+  · rintro ⟨h1, h2⟩; exact ⟨h1, by omega⟩
+  · rintro ⟨h1, h2⟩; exact ⟨h1, by omega⟩
+
+/-- `insert` commutes with the order-preserving key shift -/
+theorem insert_shift {ν : Type} (k : Nat × Nat) (v : ν) : ∀ m : SMap (Nat × Nat) ν,
+    SMap.insert (shiftKey k) v (m.map (fun kv => (shiftKey kv.1, kv.2)))
+      = (SMap.insert k v m).map (fun kv => (shiftKey kv.1, kv.2))
+  | [] => rfl
+  | (k', v') :: rest => by
+    simp only [List.map_cons, SMap.insert, shift_lt]
+    by_cases h1 : LinOrd.lt k k' = true
+    · simp only [h1, if_true, List.map_cons]
+    · simp only [h1, if_false, Bool.false_eq_true]
+      by_cases h2 : k = k'
+      · subst h2; simp only [if_true, List.map_cons]
+      · have h2' : ¬ shiftKey k = shiftKey k' := fun e => h2 ((shift_inj k k').1 e)
+        simp only [h2, h2', if_false, List.map_cons, insert_shift k v rest]
+
+/-- the radix scheduler's last-wins map (key = (scope hash, compact rule)) -/
+def radixQueue (matched : List (TCand × Program)) : SMap (Nat × Nat) (TCand × Program) :=
+  matched.foldl (fun m cp => SMap.insert (rkeyOf cp) cp m) []
+
+theorem legacyQueue_eq_shift (matched : List (TCand × Program)) :
+    legacyQueue matched = (radixQueue matched).map (fun kv => (shiftKey kv.1, kv.2)) := by
+  unfold legacyQueue radixQueue
+  suffices h : ∀ (m : SMap (Nat × Nat) (TCand × Program)),
+      matched.foldl (fun m cp => SMap.insert (cp.1.shash, ruleBase + cp.1.rule) cp m)
+          (m.map (fun kv => (shiftKey kv.1, kv.2)))
+        = (matched.foldl (fun m cp => SMap.insert (rkeyOf cp) cp m) m).map
+            (fun kv => (shiftKey kv.1, kv.2)) from h []
+  induction matched with
+  | nil => intro m; rfl
+  | cons x xs ih =>
+    intro m
+    rw [List.foldl_cons, List.foldl_cons, ← ih]
+    congr 1
+    exact insert_shift (rkeyOf x) x m
+
+theorem legacyDrained_eq_radixValues (matched : List (TCand × Program)) :
+    legacyDrained matched = SMap.values (radixQueue matched) := by
+  unfold legacyDrained
+  rw [legacyQueue_eq_shift]
+  unfold SMap.values
+  rw [List.map_map]; rfl
+
+/-- the radix queue `(thin, fat)` after enqueuing `matched` refines `radixQueue matched` -/
+theorem radix_fold_pay (matched : List (TCand × Program))
+    (hb : ∀ cp ∈ matched, cp.1.shash < 2 ^ 256 ∧ cp.1.rule < 4294967296) :
+    QPay (matched.foldl (fun (q : PendingTx (TCand × Program)) cp => q.enqueue cp.1.shash cp.1.rule cp) {})
+      (radixQueue matched) := by
+  unfold radixQueue
+  suffices h : ∀ (q : PendingTx (TCand × Program)) (m : SMap (Nat × Nat) (TCand × Program)), QPay q m →
+      QPay (matched.foldl (fun (q : PendingTx (TCand × Program)) cp => q.enqueue cp.1.shash cp.1.rule cp) q)
+        (matched.foldl (fun m cp => SMap.insert (rkeyOf cp) cp m) m) from h _ _ qpay_empty
+  induction matched with
+  | nil => intro q m h; exact h
+  | cons x xs ih =>
+    intro q m h
+    rw [List.foldl_cons, List.foldl_cons]
+    apply ih (fun cp hcp => hb cp (List.mem_cons_of_mem _ hcp))
+    exact enqueue_pay q m x.1.shash x.1.rule x (hb x List.mem_cons_self).1 (hb x List.mem_cons_self).2 h
+
+/-- **radixDrained_eq_legacy.** For every arrival list (any order, any repetition, any batch size —
+    either side of the extracted small-batch threshold) the `RadixScheduler` queue drains, without
+    panicking, exactly the list the `LegacyScheduler`'s `BTreeMap` drains: the last-enqueued payload
+    of every distinct `(scope hash, rule)` key in ascending key order. -/
+theorem radixDrained_eq_legacy (matched : List (TCand × Program))
+    (hb : ∀ cp ∈ matched, cp.1.shash < 2 ^ 256 ∧ cp.1.rule < 4294967296) :
+    radixDrained sortCfg matched = some (legacyDrained matched) := by
+  unfold radixDrained
+  rw [drain_eq_values _ _ (radix_fold_pay matched hb), legacyDrained_eq_radixValues]
+
+end EchoVerif.Tick
+
+namespace EchoVerif.Tick
+open EchoVerif EchoVerif.Sched EchoVerif.Generated SMap Exec Graph
+
+/-- Order/duplication independence of a whole tick on BOTH scheduler paths. -/
+theorem tick_set (cfg : Cfg) (hcfg : cfg.sort = sortCfg) (progOf : Nat → Nat → Option Program)
+    (pre : WState) (radix : Bool) (xs ys : List TCand) (hco : Coherent xs)
+    (hbx : ∀ c ∈ xs, c.shash < 2 ^ 256 ∧ c.rule < 4294967296)
+    (hset : ∀ c, c ∈ xs ↔ c ∈ ys) :
+    (tick cfg progOf pre radix xs).2 = (tick cfg progOf pre radix ys).2 := by
+  cases radix with
+  | false => exact tick_legacy_set cfg progOf pre xs ys hco hset
+  | true =>
+    unfold tick
+    have hbad : (matchAll progOf pre xs).2.2 = (matchAll progOf pre ys).2.2 := by
+      rw [Bool.eq_iff_iff, matchAll_bad, matchAll_bad]
+      constructor
+      · rintro ⟨c, hc, h⟩; exact ⟨c, (hset c).mp hc, h⟩
+      · rintro ⟨c, hc, h⟩; exact ⟨c, (hset c).mpr hc, h⟩
+    cases hbx' : (matchAll progOf pre xs).2.2 with
+    | true =>
+      have hby : (matchAll progOf pre ys).2.2 = true := by rw [← hbad, hbx']
+      generalize hx : matchAll progOf pre xs = rx at hbx'
+      generalize hy : matchAll progOf pre ys = ry at hby
+      obtain ⟨b1, m1, f1⟩ := rx
+      obtain ⟨b2, m2, f2⟩ := ry
+      simp only at hbx' hby
+      subst hbx'; subst hby
+      rfl
+    | false =>
+      have hby : (matchAll progOf pre ys).2.2 = false := by rw [← hbad, hbx']
+      have hq : legacyQueue (matchAll progOf pre xs).2.1 = legacyQueue (matchAll progOf pre ys).2.1 := by
+        apply legacyQueue_set (keyInj_matched hco hbx')
+        intro cp
+        rw [mem_matchAll progOf pre xs hbx', mem_matchAll progOf pre ys hby, hset]
+      have hb1 : ∀ cp ∈ (matchAll progOf pre xs).2.1, cp.1.shash < 2 ^ 256 ∧ cp.1.rule < 4294967296 :=
+        fun cp hcp => hbx cp.1 ((mem_matchAll progOf pre xs hbx' cp).mp hcp).1
+      have hb2 : ∀ cp ∈ (matchAll progOf pre ys).2.1, cp.1.shash < 2 ^ 256 ∧ cp.1.rule < 4294967296 :=
+        fun cp hcp => hbx cp.1 ((hset cp.1).mpr ((mem_matchAll progOf pre ys hby cp).mp hcp).1)
+      have hr1 := radixDrained_eq_legacy _ hb1
+      have hr2 := radixDrained_eq_legacy _ hb2
+      generalize hx : matchAll progOf pre xs = rx at hbx' hq hr1
+      generalize hy : matchAll progOf pre ys = ry at hby hq hr2
+      obtain ⟨b1, m1, f1⟩ := rx
+      obtain ⟨b2, m2, f2⟩ := ry
+      simp only at hbx' hby hq hr1 hr2
+      subst hbx'; subst hby
+      simp only [Bool.false_eq_true, if_false, commit, if_true, hcfg, hr1, hr2, legacyDrained, hq]
+
+end EchoVerif.Tick
